@@ -124,6 +124,13 @@ def early_scenarios():
         for late, at in ((6, 3), (6, 4), (8, 5)):
             out.append({"components": [dev("x"), dev("a", cb={"kind": "period", "p": 200_000_000 * num})], "speed": [num, den], "t0": 5_000_000_000,
                         "n_ticks": 4, "start_delays": {"": late}, "stims": [{"step": at, "comp": "x"}]})
+    # ... followed by LATER interrupts of the same (otherwise quiet) component: they are stamped with the simulation
+    # time that corresponds to their own arrival, whatever was recorded for the early one
+    for num, den in ([1, 1], [2, 1], [1, 2]):
+        for late, at in ((6, 3), (8, 5)):
+            out.append({"components": [dev("x"), dev("a", cb={"kind": "period", "p": 500_000_000 * num})], "speed": [num, den], "t0": 5_000_000_000,
+                        "n_ticks": 5, "start_delays": {"": late}, "monitor_stamps": True,
+                        "stims": [{"step": at, "comp": "x"}, {"real": 120_000_111, "comp": "x"}, {"real": 310_000_111, "comp": "x"}]})
     return out
 
 
@@ -134,7 +141,8 @@ def run(tier, seed, drv):
         run_ = run_scenario(scn, bus="sync")
         res.case(SC.scn_key(scn), nontrivial=True)
         res.count("early-interrupt-nonzero-t0")
-        SC.check_run(scn, run_, drv, res, monitors_on=("pacing", "tick_times", "linear_law"), corr=("ticker",), case_extra={"bus": "sync"})
+        SC.check_run(scn, run_, drv, res, monitors_on=("pacing", "tick_times", "linear_law") + (("interrupt_stamp", "interrupts") if scn.get("monitor_stamps") else ()),
+                     corr=("ticker",), case_extra={"bus": "sync"})
     for scn in midtick_scenarios(rng, tier):
         run_ = run_scenario(scn, bus="sync")
         res.case(SC.scn_key(scn), nontrivial=True)
